@@ -59,6 +59,10 @@ def ref_rank_to_average(cols, rows, order_by, partition_by, rank_col):
     return list(cols) + [rank_col], [tuple(r) + (rank[i],) for i, r in enumerate(rows)]
 
 
+def _missing(v) -> bool:
+    return v is None or v == "nan" or (isinstance(v, float) and v != v)
+
+
 def ref_locf(cols, rows, order_by, partition_by, value_col):
     ip = [cols.index(c) for c in partition_by]
     io = [cols.index(c) for c in order_by]
@@ -70,7 +74,7 @@ def ref_locf(cols, rows, order_by, partition_by, value_col):
     for idx in parts.values():
         last = None
         for i in sorted(idx, key=lambda i: tuple(rows[i][j] for j in io)):
-            if rows[i][iv] is None:
+            if _missing(rows[i][iv]):  # only MISSING values are filled; +-inf is a value
                 out[i][iv] = last
             else:
                 last = rows[i][iv]
@@ -125,18 +129,24 @@ def gen_cases(tier: str, seed: int) -> List[Dict[str, Any]]:
             if n == 3 and k % (4 if tier == "quick" else 1) != 0:
                 continue
             out.append({"helper": "rank_to_average", "cols": ["p", "x", "y"], "rows": [list(r) for r in rows], "partition_by": ["p"], "order_by": ["x", "y"]})
-    # ---- last_observed_carried_forward: distinct order keys, 2 partitions, values None / 1.0 / 2.0
+    # ---- last_observed_carried_forward: distinct order keys, 2 partitions; values: missing (None and NaN -- the same
+    #      thing in a Pandas float column and in SQLite), ordinary numbers and +-inf (values, NOT missing: never filled,
+    #      and carried forward like any other value)
+    INF = float("inf")
+    vdom = (None, 1.0, 2.0, INF, -INF, "nan")
     for n in range(0, 5):
         perms = [list(range(1, n + 1)), list(range(n, 0, -1))] + ([[2, 4, 1, 3][:n] if n == 4 else [2, 3, 1][:n]] if n >= 3 else [])
         perms = [list(p) for p in collections.OrderedDict.fromkeys(tuple(p) for p in perms)]
         k = 0
         for t in perms:
             for ps in itertools.product(("a", "b"), repeat=n):
-                for vs in itertools.product((None, 1.0, 2.0), repeat=n):
+                for vs in itertools.product(vdom, repeat=n):
                     k += 1
-                    if n == 4 and k % (6 if tier == "quick" else 2) != seed % 2:
+                    if n == 3 and k % (6 if tier == "quick" else 1) != seed % (6 if tier == "quick" else 1):
                         continue
-                    if all(v is not None for v in vs) and k % 5 != 0:
+                    if n == 4 and k % (150 if tier == "quick" else 12) != seed % 12:
+                        continue
+                    if all(v is not None and v != "nan" for v in vs) and k % 5 != 0:
                         continue  # nothing to fill: keep a few
                     rows = [[ps[i], t[i], vs[i]] for i in range(n)]
                     for part in (["p"], None):
@@ -180,7 +190,8 @@ _TYPES = {"p": "str", "x": "int", "y": "int", "t": "int", "v": "float", "id": "s
 
 def _frame(cols, rows, types=None):
     types = types or _TYPES
-    return C.to_pandas({c: [r[j] for r in rows] for j, c in enumerate(cols)}, {c: types[c] for c in cols})
+    cell = lambda v: float("nan") if v == "nan" else v  # noqa: E731  ("nan" marks an explicit NaN cell in stored cases)
+    return C.to_pandas({c: [cell(r[j]) for r in rows] for j, c in enumerate(cols)}, {c: types[c] for c in cols})
 
 
 def build(case):
@@ -198,10 +209,12 @@ def build(case):
     d = TableDescription(table_name="d", column_names=cols)
     tabs = {"d": _frame(cols, rows, types)}
     if h == "rank_to_average":
-        ops = sol.rank_to_average(d, order_by=case["order_by"], partition_by=case["partition_by"], rank_column_name="rk")
+        kw = {"partition_by": case["partition_by"]} if case["partition_by"] else {}  # no partition: the helper's DEFAULT
+        ops = sol.rank_to_average(d, order_by=case["order_by"], rank_column_name="rk", **kw)
         want = ref_rank_to_average(cols, rows, case["order_by"], case["partition_by"], "rk")
     elif h == "last_observed_carried_forward":
-        ops = sol.last_observed_carried_forward(d, order_by=case["order_by"], partition_by=case["partition_by"], value_column_name="v")
+        kw = {"partition_by": case["partition_by"]} if case["partition_by"] else {}  # every optional parameter at its DEFAULT
+        ops = sol.last_observed_carried_forward(d, order_by=case["order_by"], value_column_name="v", **kw)
         want = ref_locf(cols, rows, case["order_by"], case["partition_by"] or [], "v")
     elif h == "replicate_rows_query":
         ops, count_frame = sol.replicate_rows_query(d, count_column_name="cnt", seq_column_name="seq", join_temp_name="jt", max_count=case["max_count"])
@@ -209,7 +222,12 @@ def build(case):
         want = ref_replicate(cols, rows, "cnt", "seq")
     elif h == "def_multi_column_map":
         mt = TableDescription(table_name="m", column_names=["column_name", "column_value", "mapped_value"])
-        ops = sol.def_multi_column_map(d, mapping_table=mt, row_keys=["id"], cols_to_map=["c1", "c2"], coalesce_value=case["coalesce_value"], cols_to_map_back=case["cols_to_map_back"])
+        kw = {}
+        if case["coalesce_value"] is not None:
+            kw["coalesce_value"] = case["coalesce_value"]
+        if case["cols_to_map_back"] is not None:
+            kw["cols_to_map_back"] = case["cols_to_map_back"]
+        ops = sol.def_multi_column_map(d, mapping_table=mt, row_keys=["id"], cols_to_map=["c1", "c2"], **kw)
         mrows = [tuple(r) for r in case["mapping"]]
         tabs["m"] = pandas.DataFrame({"column_name": [r[0] for r in mrows], "column_value": [r[1] for r in mrows], "mapped_value": [float(r[2]) for r in mrows]})
         want = ref_multi_map(cols, rows, mrows, ["id"], ["c1", "c2"], case["coalesce_value"], case["cols_to_map_back"])
